@@ -229,6 +229,39 @@ pub fn run_fuzz_campaign(id: &str, root: &Path, seed: u64, runs_per_job: u64, jo
                     }
                 }
                 let summary = log.lines().rev().find(|l| l.contains("SUMMARY:") || l.contains("EPVERIF-PANIC")).unwrap_or("").to_string();
+                if kind == "timeout" && id == "C02" && !data.is_empty() {
+                    // C02 names hangs: the input libFuzzer gave up on (30 s; executions take milliseconds) is
+                    // run once more alone; if a fresh process does not finish it within 60 s either, it is a
+                    // violation with that concrete input, otherwise it decides nothing
+                    let tmp = work.join(format!("timeout-confirm-{}", j));
+                    let _ = std::fs::write(&tmp, &data);
+                    let mut child = Command::new(&bin)
+                        .arg(&tmp)
+                        .env("VERIF_ORACLE", id)
+                        .env("EPVERIF_ROOT", root)
+                        .env("ASAN_OPTIONS", "detect_leaks=0:abort_on_error=1")
+                        .arg("-timeout=0")
+                        .stdin(Stdio::null())
+                        .stdout(Stdio::null())
+                        .stderr(Stdio::null())
+                        .spawn()
+                        .expect("spawn confirm");
+                    let t1 = std::time::Instant::now();
+                    let mut finished = false;
+                    while t1.elapsed() < std::time::Duration::from_secs(60) {
+                        if let Ok(Some(_)) = child.try_wait() {
+                            finished = true;
+                            break;
+                        }
+                        std::thread::sleep(std::time::Duration::from_millis(50));
+                    }
+                    if !finished {
+                        let _ = child.kill();
+                        let _ = child.wait();
+                        return Err(Failure::new(format!("C02|hang|fuzz:{}", target), "every call terminates", format!("libFuzzer target {} gave up on this input after 30 s and a fresh process does not finish it within 60 s either (executions take milliseconds)", target), concretize(target, &data)));
+                    }
+                    return Ok(json!({"fuzz": {"inconclusive": format!("timeout in target {} that does not reproduce in a fresh process", target)}}));
+                }
                 if kind == "timeout" || kind == "oom" {
                     return Ok(json!({"fuzz": {"inconclusive": format!("{} in target {}: {}", kind, target, summary)}}));
                 }
